@@ -14,6 +14,7 @@ void World::exec(const Step &s)
     hit_index = 0;
     desc.str("");
     const size_t obs_before = obs.size();
+    if (tracing) { fprintf(stderr, "#%d c%d %s ...\n", cur_step, s.client, s.op.c_str()); fflush(stderr); }
     g_sim_clock++;
     const std::string &op = s.op;
     stats.opcount[op]++;
@@ -103,7 +104,7 @@ bool World::run()
         }
         if (failed()) break;
         auditAfterStep(false);
-        eh.add(abstractState());
+        { const uint64_t as = abstractState(); eh.add(as); astates.insert(uint32_t(as ^ (as >> 32))); }
     }
     if (!failed() && !abandoned) {
         cur_step = int(plan.steps.size());
